@@ -1,8 +1,395 @@
-//! C11 — stub, to be written.
+//! C11 — file selection and path rewriting: ties `grcov::rewrite_paths`, `normalize_path`,
+//! `is_covered`, `std::path` and `globset` to the Lean models (UPath / Glob / Rewrite, driver
+//! `gm_c11`) and evaluates the property oracles on the implementation.
+mod pathgen;
 use corrlib::*;
+use pathgen::*;
+use serde_json::json;
+use std::collections::BTreeMap;
+use std::path::Path;
 
-pub fn run(_rep: &mut Report) {}
-pub fn replay(_rep: &mut Report, _case: &serde_json::Value) {}
+const PIECES: &[&str] = &[
+    "a", "b.c", "foo", "bar", ".", "..", "/", "//", "./", "../", "名", " ", "..a", "a..", "...", ".c", "/.", "/..",
+];
+
+fn gen_raw(rng: &mut Rng) -> String {
+    let n = rng.below(7);
+    let mut s = String::new();
+    for _ in 0..n {
+        s.push_str(*rng.pick(PIECES));
+        if rng.chance(1, 2) {
+            s.push('/');
+        }
+    }
+    if rng.chance(1, 6) {
+        s.insert(0, '/');
+    }
+    s
+}
+
+fn h(tag: char, s: &str) -> String {
+    format!("{}{}", tag, hex(s.as_bytes()))
+}
+fn show_opt(o: Option<&str>) -> String {
+    match o {
+        None => "none".into(),
+        Some(s) => format!("some:{}", hex(s.as_bytes())),
+    }
+}
+
+/// std::path and grcov::normalize_path against UPath
+fn path_ops(rep: &mut Report, rng: &mut Rng) {
+    let n = rep.budget(6_000, 10);
+    let mut reqs = vec![];
+    let mut outs = vec![];
+    for _ in 0..n {
+        let p = gen_raw(rng);
+        let q = if rng.chance(1, 2) {
+            // a component-wise prefix / suffix of p, respelled
+            let cs: Vec<&str> = p.split('/').collect();
+            let k = rng.below(cs.len() as u64 + 1) as usize;
+            let mut q = if rng.chance(1, 2) { cs[..k].join("/") } else { cs[k..].join("/") };
+            if rng.chance(1, 4) {
+                q.push('/');
+            }
+            if rng.chance(1, 6) {
+                q = q.replace('/', "//");
+            }
+            q
+        } else {
+            gen_raw(rng)
+        };
+        let pp = Path::new(&p);
+        let qp = Path::new(&q);
+        let (req, out) = match rng.below(7) {
+            0 => {
+                use std::path::Component::*;
+                let cs: Vec<String> = pp
+                    .components()
+                    .map(|c| match c {
+                        RootDir => "R".to_string(),
+                        CurDir => "C".to_string(),
+                        ParentDir => "P".to_string(),
+                        Normal(n) => format!("N{}", hex(n.to_str().unwrap().as_bytes())),
+                        Prefix(_) => "X".to_string(),
+                    })
+                    .collect();
+                (
+                    format!("comps {}", h('p', &p)),
+                    if cs.is_empty() { "-".to_string() } else { cs.join(",") },
+                )
+            }
+            1 => (
+                format!("parent {}", h('p', &p)),
+                show_opt(pp.parent().map(|x| x.to_str().unwrap())),
+            ),
+            2 => (
+                format!("ancestors {}", h('p', &p)),
+                pp.ancestors()
+                    .map(|a| h('a', a.to_str().unwrap()))
+                    .collect::<Vec<_>>()
+                    .join(","),
+            ),
+            3 => (
+                format!("strip {} {}", h('p', &p), h('b', &q)),
+                show_opt(pp.strip_prefix(qp).ok().map(|x| x.to_str().unwrap())),
+            ),
+            4 => (
+                format!("push {} {}", h('a', &p), h('b', &q)),
+                h('p', pp.join(qp).to_str().unwrap()),
+            ),
+            5 => (
+                format!("ends {} {}", h('p', &p), h('c', &q)),
+                (if pp.ends_with(qp) { "1" } else { "0" }).to_string(),
+            ),
+            _ => {
+                let r = guarded(|| grcov::normalize_path(Path::new(&p)));
+                let out = match &r {
+                    Ok(o) => show_opt(o.as_ref().map(|x| x.to_str().unwrap())),
+                    Err(_) => "panic".to_string(),
+                };
+                // oracles: None iff some ".." pops past the start; Some is the stack normal form
+                if let Ok(o) = &r {
+                    let got = o.as_ref().map(|x| x.to_str().unwrap().to_string());
+                    if got.is_none() != spec_escapes(&p) {
+                        rep.fail("oracle", None,
+                            "normalize_path: dropped iff some '..' pops past the start fails".into(),
+                            json!({"op": "norm", "path": p}));
+                    } else if got != spec_normalize(&p) {
+                        rep.fail("oracle", None,
+                            "normalize_path: result is not the lexical normal form".into(),
+                            json!({"op": "norm", "path": p}));
+                    } else if let Some(g) = &got {
+                        if !normal_form(g) {
+                            rep.fail("oracle", None, "normalize_path: output not in normal form".into(),
+                                json!({"op": "norm", "path": p}));
+                        }
+                    }
+                    rep.count(if got.is_none() { "norm.escapes" } else { "norm.some" });
+                }
+                (format!("norm {}", h('p', &p)), out)
+            }
+        };
+        rep.case(&req, p.contains("..") || p.contains("//") || p.contains("/."));
+        rep.count(&format!("pathop.{}", req.split(' ').next().unwrap()));
+        reqs.push(req);
+        outs.push(out);
+    }
+    let model = run_model_named("gm_c11", &reqs, &rep.workdir, "pathops");
+    for i in 0..reqs.len() {
+        if i == 0 {
+            rep.sample(json!({"request": reqs[i], "impl": outs[i], "model": model[i]}));
+        }
+        if outs[i] != model[i] {
+            rep.disagreements_checked += 1;
+            rep.fail("disagreement", None,
+                "std::path / normalize_path differs from the UPath model".into(),
+                json!({"op": "pathop", "request": reqs[i], "impl": outs[i], "model": model[i]}));
+        }
+    }
+}
+
+const GPIECES: &[&str] = &[
+    "*", "**", "?", "/", "a", "b", ".c", "foo", "bar", "/**", "**/", "/**/", "名", "*.c", "x/", ",", "-",
+];
+const PPIECES: &[&str] = &["a", "b", ".c", "foo", "bar", "/", "x", "名", "ab", "-", ","];
+
+/// globset against Glob
+fn glob_ops(rep: &mut Report, rng: &mut Rng) {
+    let n = rep.budget(6_000, 10);
+    let mut reqs = vec![];
+    let mut outs = vec![];
+    for _ in 0..n {
+        let g = if rng.chance(1, 3) {
+            rng.pick(GLOBS).to_string()
+        } else {
+            (0..rng.range(1, 5)).map(|_| *rng.pick(GPIECES)).collect::<String>()
+        };
+        let mut p: String = (0..rng.below(7)).map(|_| *rng.pick(PPIECES)).collect();
+        if rng.chance(1, 2) {
+            // a path built from the glob's own literals, so that matches are frequent
+            p = g
+                .replace("**", if rng.chance(1, 2) { "x/ab" } else { "" })
+                .replace('*', *rng.pick(&["", "a", "x/b"]))
+                .replace('?', *rng.pick(&["a", "/", "名"]));
+        }
+        if p.ends_with('.') {
+            p.push('c');
+        }
+        let glob = globset::Glob::new(&g).unwrap();
+        let single = glob.compile_matcher().is_match(&p);
+        let set = glob_set(&[g.clone()]).is_match(&p);
+        if single != set {
+            rep.fail("oracle", None, "globset: GlobSet and GlobMatcher disagree".into(),
+                json!({"op": "glob", "glob": g, "path": p}));
+        }
+        let req = format!("glob {} {}", h('g', &g), h('p', &p));
+        rep.case(&req, g.contains('*') || g.contains('?'));
+        rep.count(if set { "glob.match" } else { "glob.nomatch" });
+        reqs.push(req);
+        outs.push((if set { "1" } else { "0" }).to_string());
+    }
+    let model = run_model_named("gm_c11", &reqs, &rep.workdir, "globs");
+    for i in 0..reqs.len() {
+        if outs[i] != model[i] {
+            rep.disagreements_checked += 1;
+            rep.fail("disagreement", None, "globset differs from the Glob model".into(),
+                json!({"op": "globop", "request": reqs[i], "impl": outs[i], "model": model[i]}));
+        }
+    }
+}
+
+fn covered_ops(rep: &mut Report, rng: &mut Rng) {
+    let n = rep.budget(2_000, 10);
+    let mut reqs = vec![];
+    let mut outs = vec![];
+    for _ in 0..n {
+        let mut c = gen_cov(rng, 0);
+        if rng.chance(1, 2) {
+            c.lines.remove(&MARK);
+        }
+        let got = grcov::is_covered(&c);
+        if got != spec_covered(&c) {
+            rep.fail("oracle", None,
+                "is_covered is not (some line hit and (at most one function or a non-top-level function executed))".into(),
+                json!({"op": "covered", "cov": show_cov(&c)}));
+        }
+        let req = format!("covered {}", show_cov(&c));
+        rep.case(&req, c.functions.len() > 1);
+        rep.count(if got { "covered.yes" } else { "covered.no" });
+        reqs.push(req);
+        outs.push((if got { "1" } else { "0" }).to_string());
+    }
+    let model = run_model_named("gm_c11", &reqs, &rep.workdir, "covered");
+    for i in 0..reqs.len() {
+        if outs[i] != model[i] {
+            rep.disagreements_checked += 1;
+            rep.fail("disagreement", None, "is_covered differs from Rewrite.isCovered".into(),
+                json!({"op": "coveredop", "request": reqs[i], "impl": outs[i], "model": model[i]}));
+        }
+    }
+}
+
+fn check_case(rep: &mut Report, t: &Tree, case: &Case, impl_out: &str, model_out: &str) {
+    let cj = case.to_json("rewrite", t);
+    match c11_oracle(case) {
+        Some((what, finding)) => rep.fail("oracle", finding, what, cj),
+        None => {
+            if impl_out != model_out {
+                rep.disagreements_checked += 1;
+                let mut cj = cj;
+                cj["impl"] = json!(impl_out);
+                cj["model"] = json!(model_out);
+                rep.fail("disagreement", None,
+                    "rewrite_paths differs from Rewrite.rewritePaths (theorems C11_* no longer transfer)".into(), cj);
+            }
+        }
+    }
+}
+
+fn rewrite_stream(rep: &mut Report, rng: &mut Rng) {
+    let base = rep.workdir.join("fs");
+    let n_trees = rep.budget(6, 4);
+    let per_tree = rep.budget(450, 5) * 6 / n_trees;
+    for ti in 0..n_trees {
+        let t = build_tree(rng, &base, ti);
+        std::env::set_current_dir(&t.cw).unwrap();
+        let mut reqs = vec![];
+        let mut outs = vec![];
+        let mut cases = vec![];
+        let mut stats: BTreeMap<String, u64> = BTreeMap::new();
+        for _ in 0..per_tree {
+            let case = gen_case(rng, &t, true, &mut stats);
+            let r = run_impl(&case.cfg, &case.entries);
+            let out = show_recs(&r);
+            let req = request("rewrite", &t, &case.cfg, &case.entries);
+            let c = &case.cfg;
+            rep.count(&format!("cfg.source_dir={}", match &c.sd { None => "none", Some(s) if *s == t.src => "tree", _ => "nonexistent" }));
+            rep.count(&format!("cfg.prefix_dir={}", match &c.pd { None => "none", Some(p) if Some(p) == c.sd.as_ref() => "=source", _ => "other" }));
+            if c.mapping.is_some() { rep.count("cfg.mapping"); }
+            if !c.ignore.is_empty() { rep.count("cfg.ignore"); }
+            if !c.keep.is_empty() { rep.count("cfg.keep"); }
+            if c.ine { rep.count("cfg.ignore_not_existing"); }
+            rep.count(&format!("cfg.filter={:?}", c.filter));
+            match &r {
+                Err(_) => rep.count("out.panic"),
+                Ok(v) => {
+                    rep.count_n("out.reported", v.len() as u64);
+                    rep.count_n("out.dropped", (case.entries.len() - v.len()) as u64);
+                }
+            }
+            let nontrivial = case.entries.iter().any(|(k, _)| {
+                k.contains("..") || k.contains("//") || k.contains('\\') || k.contains("/.") || k.starts_with('/')
+            }) || !c.ignore.is_empty() || !c.keep.is_empty();
+            rep.case(&req, nontrivial);
+            reqs.push(req);
+            outs.push(out);
+            cases.push(case);
+        }
+        for (k, v) in stats {
+            rep.count_n(&k, v);
+        }
+        let model = run_model_named("gm_c11", &reqs, &rep.workdir, &format!("rewrite{}", ti));
+        for i in 0..reqs.len() {
+            if i == 0 && ti < 2 {
+                rep.sample(json!({"case": cases[i].to_json("rewrite", &t), "impl": outs[i], "model": model[i]}));
+            }
+            // the oracle runs on every case; the model is compared on every case
+            if outs[i] != model[i] {
+                check_case(rep, &t, &cases[i], &outs[i], &model[i]);
+            } else if let Some((what, finding)) = c11_oracle(&cases[i]) {
+                rep.fail("oracle", finding, what, cases[i].to_json("rewrite", &t));
+            }
+        }
+    }
+    std::env::set_current_dir("/verif").unwrap();
+}
+
+/// closed witnesses of Props/C11.lean replayed on the real code
+fn witnesses(rep: &mut Report) {
+    let base = rep.workdir.join("fs");
+    let t = materialise(&base, 900, &["src".into(), "other".into(), "cw".into()], &["src/y.c".into()]);
+    std::env::set_current_dir(&t.cw).unwrap();
+    // C11_normal_form_false: a mapped value with backslashes reaches the report as x/../y.c
+    let case = Case {
+        cfg: Cfg { sd: None, pd: None, mapping: Some(vec![("a.c".into(), "x\\..\\y.c".into())]),
+                   ignore: vec![], keep: vec![], ine: false, filter: None },
+        entries: vec![("a.c".to_string(), gen_cov(&mut Rng::new(1), 0))],
+    };
+    let out = show_recs(&run_impl(&case.cfg, &case.entries));
+    let req = request("rewrite", &t, &case.cfg, &case.entries);
+    let model = run_model_named("gm_c11", &[req.clone()], &rep.workdir, "witness");
+    rep.case(&req, true);
+    rep.count("witness.mapping_backslash");
+    check_case(rep, &t, &case, &out, &model[0]);
+    if out == model[0] {
+        if let Some((what, finding)) = c11_oracle(&case) {
+            rep.fail("oracle", finding, what, case.to_json("rewrite", &t));
+        }
+    }
+    std::env::set_current_dir("/verif").unwrap();
+}
+
+pub fn run(rep: &mut Report) {
+    rep.rule = "trees root/{src,other,cw} of 4-9 files from a pool of 8 directory and 10 file names; keys = \
+        a target (file under the source dir / outside it / under the cwd / missing / a directory) in a spelling \
+        (relative, absolute, prefixed, ./, source-dir tail, ../outside) plus up to two mutations (//, backslash, \
+        /./, name/../, trailing / or /., leading ../.., case of the first letter); configurations = all \
+        combinations of source dir (tree, non-existing, none), prefix dir (none, = source dir, foreign, relative, \
+        empty), path mapping, ignore / keep-only globs from a pool of 40, ignore-not-existing, filter; \
+        non-trivial = some key is not already a plain relative path or a glob is configured; raw path-operation, \
+        glob and is_covered cases are non-trivial when they contain . / .. / // segments, a wildcard, or two functions"
+        .to_string();
+    let mut rng = Rng::new(rep.seed ^ 0xC11);
+    path_ops(rep, &mut rng);
+    glob_ops(rep, &mut rng);
+    covered_ops(rep, &mut rng);
+    rewrite_stream(rep, &mut rng);
+    witnesses(rep);
+    rep.notes.push("Java/Kotlin keys (map_partial_path), exclusion markers, symlinks and keys whose first character is a cased non-ASCII letter are outside the generated domain; relative keys without source dir are resolved against the process cwd, which the harness sets to <tree>/cw".into());
+}
+
+pub fn replay(rep: &mut Report, case: &serde_json::Value) {
+    match case["op"].as_str().unwrap_or("") {
+        "rewrite" => {
+            let base = rep.workdir.join("fs");
+            let t = tree_from_json(&base, &case["tree"]);
+            std::env::set_current_dir(&t.cw).unwrap();
+            let c = Case::from_json(case);
+            let out = show_recs(&run_impl(&c.cfg, &c.entries));
+            let req = request("rewrite", &t, &c.cfg, &c.entries);
+            let model = run_model_named("gm_c11", &[req.clone()], &rep.workdir, "replay");
+            rep.case(&req, true);
+            check_case(rep, &t, &c, &out, &model[0]);
+            std::env::set_current_dir("/verif").unwrap();
+        }
+        "norm" => {
+            let p = case["path"].as_str().unwrap().to_string();
+            let got = grcov::normalize_path(Path::new(&p)).map(|x| x.to_str().unwrap().to_string());
+            rep.case(&p, true);
+            if got.is_none() != spec_escapes(&p) || got != spec_normalize(&p) {
+                rep.fail("oracle", None, "normalize_path differs from the lexical normal form".into(), case.clone());
+            }
+        }
+        "covered" => {
+            let c = parse_cov(case["cov"].as_str().unwrap());
+            rep.case("covered", true);
+            if grcov::is_covered(&c) != spec_covered(&c) {
+                rep.fail("oracle", None, "is_covered rule".into(), case.clone());
+            }
+        }
+        "pathop" | "globop" | "coveredop" => {
+            // a recorded model/std disagreement: re-run the request
+            let req = case["request"].as_str().unwrap().to_string();
+            let model = run_model_named("gm_c11", &[req.clone()], &rep.workdir, "replay");
+            rep.case(&req, true);
+            if model[0] != case["impl"].as_str().unwrap_or("") {
+                rep.fail("disagreement", None, "model differs from the recorded library answer".into(), case.clone());
+            }
+        }
+        _ => {}
+    }
+}
 
 fn main() {
     corrlib::run_main("C11", run, replay);
